@@ -12,6 +12,57 @@ NOT_APPLICABLE = {
 
 # id -> dict(text, note, technique, design_ref, category)
 CHECKS = {
+    "C02": dict(
+        category="other",
+        text="Decides the discipline that makes adapter read-ahead harmless, not result equality: every carrier.query.take() "
+             "and its restore are sibling statements of one block (restore post-dominates take) with no early exit, no use / "
+             "clone / read of the carrier in between, every one of the 11 adapter calls lies inside such a bracket and gets "
+             "the taken query through Resolve(Edge)Info whose into_inner() is restored; no engine closure or struct captures "
+             "or stores Rc/RefCell/Cell/locks/atomics; closures calling adapters own a carrier clone (by value) made outside "
+             "every bracket.",
+        note="trusted: rustc borrow checking (no aliasing of &mut carrier), the adapter preserves context order",
+        technique="static analysis: pairing / path rule over structured typed HIR + closure capture and ADT field walks",
+        design_ref="DESIGN.md section 4 C02"),
+    "C03": dict(
+        category="other",
+        text="Phase/effect analysis: construction-phase code (function bodies outside closures, reachable while interpret_ir "
+             "builds the pipeline) never calls a consuming method on an iterator of contexts/vertices (only lazy std adapters); "
+             "no closure captures and no engine struct stores an upstream context iterator, so lazy-phase consumers drain only "
+             "per-context data; the two hand-written expanders pull at most once per next(), never in a loop; the "
+             "starting-vertex iterator is wrapped in lazy adapters only.",
+        note="trusted: laziness of std iterator adapters; the adapter itself does not read ahead",
+        technique="static analysis: phase labelling of functions/closures + effect (iterator consumption) rules over typed HIR",
+        design_ref="DESIGN.md section 4 C03"),
+    "C05": dict(
+        category="other",
+        text="Every resolve_property call site of the engine is classified by the provenance of its property-name argument "
+             "(followed through parameters to all internal call sites): output, filter subject, tag in vertex filter, tag in "
+             "fold post-filter, imported tag; unclassifiable sites fail. For each class that occurs, the data flow into the "
+             "iterator returned by VertexInfo::required_properties must include the IR source of that class, restricted to the "
+             "asked vertex. Decides that no class of request is invisible to the hint, not set equality per query.",
+        note="trusted: rustc resolution; provenance closure is intra-crate with call-site substitution (depth 5)",
+        technique="static analysis: inter-procedural provenance of call arguments + result data-flow footprint",
+        design_ref="DESIGN.md section 4 C05"),
+    "C11": dict(
+        category="other",
+        text="frontend::parse goes through IndexedQuery::try_from on every success path; the indexer is abstractly evaluated "
+             "on a well-formed two-component query and on one malformed variant per structural invariant (18 variants), each "
+             "rejected with its own code; id generators advance in lockstep (+1 from 1, root vid unpaired); complete decision "
+             "table of TagHandler::reference_tag (48 path/order cases incl. import level); begin/end_subcomponent pairing; "
+             "variable collection sources. Not decided: invariants beyond what indexer + lockstep imply.",
+        note="trusted: collection model (stdmodel.py), Type model; the indexer's checks are the definition of well-formed",
+        technique="static analysis: abstract interpretation of indexer / tag handler over IR shapes + structural pairing rules",
+        design_ref="DESIGN.md section 4 C11"),
+    "C13": dict(
+        category="other",
+        text="Narrow: complete table of the output-type wrapper (optional -> nullable; one list per enclosing fold, outermost "
+             "first, list nullable iff that fold is under @optional) by abstract evaluation; optional-vertex closure over "
+             "component shapes; push/recursive-call/pop pairing of the fold-optional stack; fold count declared Int! and "
+             "produced as Uint64(len), null only for non-existent folds; engine and indexer read the same output sources. "
+             "Not decided: validity of adapter-supplied values.",
+        note="trusted: Type model (C17), collection model",
+        technique="static analysis: abstract interpretation of indexer helpers + pairing / footprint rules",
+        design_ref="DESIGN.md section 4 C13"),
     "C04": dict(
         category="other",
         text="Decides structural clauses: all three places that turn a filter operator into a candidate value use a "
